@@ -1921,6 +1921,12 @@ class _FormatInferInstance(Visitor):
             zeros: set[SetValue] = {Fraction(0)}
             if cand.has_neg_zero:
                 zeros.add(NEG_ZERO)
+            if cand.has_pos_inf:
+                zeros.add(Special.POS_INF)
+            if cand.has_neg_inf:
+                zeros.add(Special.NEG_INF)
+            if cand.has_nan:
+                zeros.add(Special.NAN)
             return SetFormat(frozenset(zeros))
         mat = cand.format()
         if (isinstance(mat, AbstractableFormat)
